@@ -156,6 +156,7 @@ type Exec struct {
 	entered       map[string]int
 	covers        map[string]int
 	stopAll       bool
+	pastDeadline  bool
 	sizes         types.Sizes
 	typeIDs       map[string]int
 	hooks         map[string]*ssa.Function // function full name -> replacement
@@ -429,6 +430,11 @@ func (e *Exec) check(st *State, extra *Term) string {
 				return "unsat"
 			}
 		}
+	}
+	if !e.cfg.Deadline.IsZero() && time.Now().After(e.cfg.Deadline) {
+		// slow solver queries can keep a case far beyond its budget between two step-count checks:
+		// flag it here, the step loop stops at the next instruction
+		e.pastDeadline = true
 	}
 	return e.sol.Check(st.pc, extra, e.cfg.FeasMs)
 }
@@ -891,7 +897,8 @@ func (e *Exec) runBlock(st *State, fr *Frame, blk *ssa.BasicBlock, idx int, stop
 			idx++
 			st.steps++
 			e.stats.Steps++
-			if e.stats.Steps&0xfff == 0 && !e.cfg.Deadline.IsZero() && time.Now().After(e.cfg.Deadline) {
+			if e.pastDeadline || (e.stats.Steps&0xfff == 0 && !e.cfg.Deadline.IsZero() && time.Now().After(e.cfg.Deadline)) {
+				e.pastDeadline = false
 				e.event("budget", "wall-clock budget of this case exhausted")
 				e.stopAll = true
 				return res
